@@ -30,6 +30,7 @@ var checks = map[string][]HarnessSpec{
 	"C06": {
 		{Name: "verifC06History", Pkg: ".", Labels: []string{"setup", "retry-ok", "retry-abort", "done"}},
 		{Name: "verifC06Concurrent", Pkg: ".", Labels: []string{"concurrent-retry"}},
+		{Name: "verifC06SecondHRR", Pkg: ".", Labels: []string{"second-hrr"}},
 		{Name: "verifC04RetryRules", Pkg: ".", Labels: []string{"retry-ran"}}, // every ill-formed retried hello (also registered under C04)
 	},
 	"C07": {
